@@ -331,6 +331,16 @@ def simulate(rng, tmp, p):
                 fl = rng.randint(rl_min, rl_max)
                 a = rng.randrange(-fl // 2, L - fl // 2)
                 a, b = max(0, a), min(L, a + fl)
+                if vs and rng.random() < p.get("edge_frac", 0.0):
+                    # snap one end of the fragment to the neighbourhood of a variant (first/last aligned base cases)
+                    v = rng.choice(vs)
+                    off = rng.randint(-3, len(v.ref) + v.shift + 3)
+                    if rng.random() < 0.5:
+                        a = min(max(0, v.pos + off), L - 31)
+                        b = min(L, a + fl)
+                    else:
+                        b = min(L, max(31, v.pos + off))
+                        a = max(0, b - fl)
                 if b - a < 30:
                     continue
                 paired = rng.random() < p.get("paired", 0.0) and (b - a) >= 120
